@@ -205,6 +205,24 @@ theorem compare_overflow_witness :
     a.Valid ∧ b.Valid ∧ ¬ CmpDomain a b ∧ compare .lt a b = true ∧ ¬ ((absV a).instantC < (absV b).instantC) := by
   decide
 
+/-- PARTIAL (known finding F11n): the value comparison operators do not apply the *implicit timezone* of the
+dynamic context (only the arithmetic operators do); they place a value without timezone at UTC.  The
+comparison therefore equals the F&O order under an implicit timezone of `itz` minutes only when that
+timezone cannot matter: both or neither operand have a timezone, or `itz = 0`.  The full statement
+(every pair, every implicit timezone) is false: `compare_implicit_tz_witness`. -/
+theorem compare_implicit_tz_partial (op : Cmp) (a b : DT) (itz : Int) (ha : a.Valid) (hb : b.Valid)
+    (hd : CmpDomain a b) (h : ImplicitTzIrrelevant a b itz) :
+    compare op a b = op.op ((absV a).instantI itz) ((absV b).instantI itz) :=
+  compare_implicit op a b itz ha hb hd h
+
+/-- F11n witness: with implicit timezone +14:00, 2002-02-01T00:00:00 (= 2002-01-31T10:00:00Z) precedes
+2002-01-31T20:37:00Z, but the comparison says it does not. -/
+theorem compare_implicit_tz_witness :
+    let a : DT := ⟨2002, 2, 1, 0, none⟩
+    let b : DT := ⟨2002, 1, 31, 74220000000, some 0⟩
+    a.Valid ∧ b.Valid ∧ CmpDomain a b ∧ ¬ ImplicitTzIrrelevant a b 840 ∧
+    compare .lt a b = false ∧ (absV a).instantI 840 < (absV b).instantI 840 := by decide
+
 /-! ### timezone adjustment -/
 
 /-- **`adjust-dateTime-to-timezone` preserves the instant** when both the value and the argument have a
@@ -234,6 +252,25 @@ theorem adjust_date_is_day_of_instant (v : DT) (z0 z : Int) (hv : v.Valid) (htz 
 
 /-- test (literals): 9999-02-28-14:00 adjusted to +14:00 is 9999-03-01+14:00 (28 hours later) -/
 example : Cal.adjustDate ⟨9999, 2, 28, 0, some (-840)⟩ (some 840) = .ok ⟨9999, 3, 1, 0, some 840⟩ := by decide
+
+/-- **the adjust functions leave their argument alone** (object level): on a heap of date/time objects,
+`adjust_datetime` applied to object `i` returns a *new* object (index ≥ the old heap size) holding the
+adjusted value, and every object of the old heap — the argument included — is unchanged, whatever the
+timezones (value without timezone, `$timezone` empty, both present). -/
+theorem adjust_argument_unchanged (isDate : Bool) (h : List DT) (i : Nat) (tz : Option Int) (h' : List DT) (k : Nat)
+    (hr : adjustObj isDate h i tz = .ok (h', k)) :
+    (∀ n, n < h.length → h'[n]? = h[n]?) ∧ h.length ≤ k ∧
+    ∃ item, h[i]? = some item ∧
+      (h'[k]?).map Except.ok = some (if isDate then Cal.adjustDate item tz else adjustDateTime item tz) :=
+  adjustObj_spec isDate h i tz h' k hr
+
+/-- **component extraction returns the value's own components**: for a value built from lexical year `n`
+the components are `n` and the stored month, day, hours, minutes, seconds — the specification's components
+of the denoted value (both XSD numberings). -/
+theorem components_eq_spec (v11 : Bool) (v : DT) (hy : v.year ≠ 0) :
+    Cal.components v11 v = Timeline.components v11 (absV v) := by
+  unfold Cal.components Timeline.components yearFrom absV astro lex11OfAstro lex10OfAstro
+  cases v11 <;> simp <;> split <;> (try split) <;> omega
 
 /-! ### ± yearMonthDuration -/
 
